@@ -86,19 +86,19 @@ macro_rules! select_intra {
         }
     };
 }
-// @h props=C05,C04:t,C10 tier=quick family=K mem=8 timeout=2400 stubs=utils::select_in_word_u128->contract(c17_select_in_word_u128_law) role=rsqvector.select_intra_block.256
+// @h props=C05,C04:t,C10 tier=quick family=K mem=5 timeout=2400 stubs=utils::select_in_word_u128->contract(c17_select_in_word_u128_law) role=rsqvector.select_intra_block.256
 // @bound B=256: one line; one 128-symbol half fully symbolic, the other a symbolic constant symbol; all symbols, every existing in-block occurrence
 // @funcs RSQVector::select_intra_block, qvector::DataLine::normalize, utils::select_in_word_u128
 select_intra!(c05_select_intra_256_half, RSSupportPlain<256>, 256, 1, false);
-// @h props=C05,C04:t,C10 tier=quick family=K mem=8 timeout=2400 stubs=utils::select_in_word_u128->contract(c17_select_in_word_u128_law) role=rsqvector.select_intra_block.512
+// @h props=C05,C04:t,C10 tier=quick family=K mem=5 timeout=2400 stubs=utils::select_in_word_u128->contract(c17_select_in_word_u128_law) role=rsqvector.select_intra_block.512
 // @bound B=512: two lines (one block); one of the four 128-symbol halves fully symbolic, the others symbolic constant symbols; every existing in-block occurrence
 // @funcs RSQVector::select_intra_block, qvector::DataLine::normalize, utils::select_in_word_u128
 select_intra!(c05_select_intra_512_half, RSSupportPlain<512>, 512, 2, false);
-// @h props=C05,C10:t tier=thorough family=K mem=8 timeout=3600 stubs=utils::select_in_word_u128->contract(c17_select_in_word_u128_law) role=rsqvector.select_intra_block.256
+// @h props=C05,C10:t tier=thorough family=K mem=5 timeout=3600 stubs=utils::select_in_word_u128->contract(c17_select_in_word_u128_law) role=rsqvector.select_intra_block.256
 // @bound B=256: one fully symbolic line (all 2^512 contents)
 // @funcs RSQVector::select_intra_block, qvector::DataLine::normalize, utils::select_in_word_u128
 select_intra!(c05_select_intra_256_full, RSSupportPlain<256>, 256, 1, true);
-// @h props=C05,C10:t tier=thorough family=K mem=8 timeout=3600 stubs=utils::select_in_word_u128->contract(c17_select_in_word_u128_law) role=rsqvector.select_intra_block.512
+// @h props=C05,C10:t tier=thorough family=K mem=5 timeout=3600 stubs=utils::select_in_word_u128->contract(c17_select_in_word_u128_law) role=rsqvector.select_intra_block.512
 // @bound B=512: two fully symbolic lines
 // @funcs RSQVector::select_intra_block, qvector::DataLine::normalize, utils::select_in_word_u128
 select_intra!(c05_select_intra_512_full, RSSupportPlain<512>, 512, 2, true);
@@ -135,11 +135,11 @@ macro_rules! rank_intra {
         }
     };
 }
-// @h props=C05,C04:t tier=quick family=K mem=8 timeout=2400 role=rsqvector.rank_intra_block.256
+// @h props=C05,C04:t tier=quick family=K mem=5 timeout=2400 role=rsqvector.rank_intra_block.256
 // @bound B=256: two fully symbolic lines, length 257..=512 symbolic, every symbol and position <= length
 // @funcs RSQVector::rank_intra_block, qvector::DataLine::rank_unchecked
 rank_intra!(c05_rank_intra_256, RSSupportPlain<256>, 256, 2);
-// @h props=C05,C04:t tier=quick family=K mem=8 timeout=2400 role=rsqvector.rank_intra_block.512
+// @h props=C05,C04:t tier=quick family=K mem=5 timeout=2400 role=rsqvector.rank_intra_block.512
 // @bound B=512: three fully symbolic lines (one and a half blocks), length 513..=768 symbolic
 // @funcs RSQVector::rank_intra_block, qvector::DataLine::rank_unchecked
 rank_intra!(c05_rank_intra_512, RSSupportPlain<512>, 512, 3);
@@ -224,27 +224,27 @@ macro_rules! tiny_e2e {
         }
     };
 }
-// @h props=C05,C04,C10,C19 tier=quick family=T prof=AB mem=8 timeout=3000 role=rsqvector256.tiny
+// @h props=C05,C04,C10,C19 tier=quick family=T prof=AB mem=5 timeout=3000 role=rsqvector256.tiny
 // @bound RSQVector256::new on 3 symbolic symbols: get, rank law, occs, occs_smaller for every symbol byte and every position of the machine range, checked and unchecked
 // @funcs RSQVector::new, RSQVector::from<QVector>, RSSupportPlain::new, RSQVector::rank, RSQVector::rank_unchecked, RSQVector::get, RSQVector::occs, RSQVector::occs_smaller, RSSupportPlain::rank_block, RSQVector::rank_intra_block
 tiny_e2e!(c05_tiny_256_new_n3, RSQVector256, 3, 0);
-// @h props=C05,C04,C19 tier=quick family=T mem=8 timeout=3000 role=rsqvector512.tiny
+// @h props=C05,C04,C19 tier=quick family=T mem=5 timeout=3000 role=rsqvector512.tiny
 // @bound RSQVector512 collected from 3 symbolic symbols
 // @funcs RSQVector::from_iter, RSSupportPlain::new, RSQVector::rank, RSQVector::get, RSQVector::occs, RSQVector::occs_smaller
 tiny_e2e!(c05_tiny_512_collect_n3, RSQVector512, 3, 1);
-// @h props=C05,C04 tier=quick family=E mem=8 timeout=1800 role=rsqvector256.empty
+// @h props=C05,C04 tier=quick family=E mem=5 timeout=1800 role=rsqvector256.empty
 // @bound empty RSQVector256 (new on an empty slice): every query, all arguments
 // @funcs RSQVector::new, RSQVector::rank, RSQVector::get, RSQVector::occs
 tiny_e2e!(c05_tiny_256_empty, RSQVector256, 0, 0);
-// @h props=C05,C04 tier=quick family=E mem=8 timeout=1800 role=rsqvector512.empty
+// @h props=C05,C04 tier=quick family=E mem=5 timeout=1800 role=rsqvector512.empty
 // @bound empty RSQVector512 (From<QVector::default()>)
 // @funcs RSQVector::from<QVector>, RSQVector::rank, RSQVector::get, RSQVector::occs
 tiny_e2e!(c05_tiny_512_empty, RSQVector512, 0, 2);
-// @h props=C05,C19 tier=thorough family=T mem=8 timeout=3600 role=rsqvector256.tiny
+// @h props=C05,C19 tier=thorough family=T mem=5 timeout=3600 role=rsqvector256.tiny
 // @bound RSQVector256 from a QVector of 5 symbolic symbols
 // @funcs RSQVector::from<QVector>, RSQVector::rank, RSQVector::get
 tiny_e2e!(c05_tiny_256_from_n5, RSQVector256, 5, 2);
-// @h props=C05 tier=thorough family=T mem=8 timeout=3600 role=rsqvector512.tiny
+// @h props=C05 tier=thorough family=T mem=5 timeout=3600 role=rsqvector512.tiny
 // @bound RSQVector512::new on 5 symbolic symbols
 // @funcs RSQVector::new, RSQVector::rank, RSQVector::get
 tiny_e2e!(c05_tiny_512_new_n5, RSQVector512, 5, 0);
@@ -293,7 +293,7 @@ macro_rules! tiny_select {
 // @bound RSQVector256::new on 2 symbolic symbols: select for every symbol byte and every k of the machine range (optional: reported inconclusive if it exceeds 30 GB)
 // @funcs RSQVector::select, RSSupportPlain::select_block, RSQVector::select_intra_block, SuperblockPlain::block_predecessor
 tiny_select!(c05_tiny_256_select_n2, RSQVector256, 2);
-// @h props=C05,C04 tier=quick family=E mem=8 timeout=1800 role=rsqvector256.empty_select
+// @h props=C05,C04 tier=quick family=E mem=5 timeout=1800 role=rsqvector256.empty_select
 // @bound empty RSQVector256: select for every symbol byte and every k
 // @funcs RSQVector::select
 tiny_select!(c05_tiny_256_select_empty, RSQVector256, 0);
